@@ -5,8 +5,8 @@
 //!
 //! The orchestrator (`../check`) builds this crate against the tree under test, runs it,
 //! matches violations against known_findings.json and writes the evidence file.
-mod util; mod isol; mod sw; mod report; mod run; mod gen; mod drive;
-mod c02; mod c03; mod c04; mod c05; mod c06; mod c07; mod c08; mod c09; mod c11; mod c16; mod c18;
+mod util; mod isol; mod sw; mod report; mod run; mod gen; mod drive; mod proj;
+mod c01; mod c02; mod c03; mod c04; mod c05; mod c06; mod c07; mod c08; mod c09; mod c10; mod c11; mod c16; mod c18;
 
 use report::Report;
 use serde_json::{json, Value};
@@ -39,6 +39,7 @@ type Replay = fn(&Ctx, &Value) -> Report;
 
 fn registry(id: &str) -> Option<(Explore, Replay)> {
     Some(match id {
+        "C01" => (c01::explore, c01::replay),
         "C02" => (c02::explore, c02::replay),
         "C03" => (c03::explore, c03::replay),
         "C04" => (c04::explore, c04::replay),
@@ -47,6 +48,7 @@ fn registry(id: &str) -> Option<(Explore, Replay)> {
         "C07" => (c07::explore, c07::replay),
         "C08" => (c08::explore, c08::replay),
         "C09" => (c09::explore, c09::replay),
+        "C10" => (c10::explore, c10::replay),
         "C11" => (c11::explore, c11::replay),
         "C16" => (c16::explore, c16::replay),
         "C18" => (c18::explore, c18::replay),
@@ -86,6 +88,7 @@ fn main() {
             v["table_order_fingerprint"] = json!(format!("{:016x}", asca::verif::table_order_fingerprint()));
             v
         }
+        "replay" if get("--c01-one").is_some() => { let _ = replay(&ctx, &Value::Null); return }
         "replay" => {
             let path = get("--cases").expect("--cases FILE");
             let cases: Value = serde_json::from_str(&std::fs::read_to_string(&path).expect("cases file")).expect("cases json");
